@@ -109,7 +109,10 @@ pub(crate) fn generate_pipeline(
             });
         }
 
-        let struct_name = ARGUMENT_BUFFER_NAMES[i];
+        // There is a fixed set of argument buffers - one per bind group
+        let Some(struct_name) = ARGUMENT_BUFFER_NAMES.get(i).copied() else {
+            return Err(GenerateError::TooManyBindGroups);
+        };
         let sd = ast::StructDefinition {
             name: Located::none(String::from(struct_name)),
             base_types: Vec::new(),
